@@ -57,9 +57,11 @@ CLAIMED = {
     'C11': ('Lean 4 proof: import∘export = id on every transition, state and contract (dict level) + correspondence through the real YAML text layer — partial',
             'transition_roundtrip(_eq), state_roundtrip (all six kinds, with or without children), contract_roundtrip for elements with stripped non-empty code; '
             'document_roundtrip (import_from_dict(export_to_dict(c)) = add_state/add_transition over exactly the lists flatS/flatT read back by the work list, '
-            'by induction on the tree), nothing_foreign_registered, nothing_forgotten (every state with its parent, every transition, for every well-formed chart). '
-            'PARTIAL: that the registration itself rebuilds the same dictionaries up to order (covered for add_state by C16), the behaviour clause (by C07 once '
-            'the structure is the same up to order) and the YAML text layer (ruamel, schema coercions) are covered by the tie only; open findings K4, K5. ' + TIE, '§6 C11'),
+            'by induction on the tree), nothing_foreign_registered, nothing_forgotten, and roundtrip_succeeds_and_is_lossless: for every well-formed chart the import of '
+            'the export returns a chart (every add_state, add_transition and validate() accept) in which every state / parent / children lookup gives what it '
+            'gives in the original and whose transitions are the original ones but for their identities, up to order. '
+            'PARTIAL: the behaviour clause (it follows from C07 once transition identities are renumbered) and the YAML text layer (ruamel, schema '
+            'coercions, schemaValidate on exported documents) are covered by the tie only; open findings K4, K5. ' + TIE, '§6 C11'),
     'C12': ('Lean 4 proof: accepted ⇒ structurally sound (invariant of add_state/add_transition/validate over the import fold); never another exception type (schema-shape lemma + work-list fuel bound) + fault-injection correspondence',
             'accepted_is_sound (unique names, one tree, parents composite and registered first, history under compound, transitions anchored, '
             'validate), initial_is_direct_child, memory_is_other_sibling, all_registered, never_another_exception (for EVERY loaded document the '
